@@ -230,7 +230,7 @@ def flowSequenceEntryMappingKey (p : PState) : Res Out := do
   let t ← peekTok p
   match t.ty with
   | .value | .flowEntry | .flowSequenceEnd =>
-    .ok (emptyScalar, t.span, skipTok { p with state := .flowSequenceEntryMappingValue })
+    .ok (emptyScalar, t.span, { p with state := .flowSequenceEntryMappingValue })
   | _ => parseNode (pushState p .flowSequenceEntryMappingValue) false false
 
 def flowSequenceEntryMappingValue (p : PState) : Res Out := do
